@@ -127,7 +127,7 @@ impl Monitor for C04 {
         Outcome::Held
     }
     fn workload(&self, w: &Work, emit: &mut dyn FnMut(Case)) -> J {
-        let n = w.share(40_000, 3_000_000);
+        let n = w.share(160_000, 5_000_000);
         let mut rng = w.rng("C04", 1);
         let alpha = ['a', 'b', 'a', 'b', 'A', ' ', '\u{10400}', '\u{301}'];
         let mut cfg = GenCfg::std(&alpha);
@@ -283,7 +283,7 @@ impl Monitor for C16 {
         }
         desc.set("exhaustive_small", J::obj().with("max_operators", J::u(n_ops as u64)).with("patterns_total", J::u(idx)).with("patterns_this_shard", J::u(mine)).with("atoms", J::s("a ^ $ (empty) .")).with("inputs", J::s("'' a aa a\\na \\n")));
         // (b) random, biased to optional things
-        let n = w.share(30_000, 3_000_000);
+        let n = w.share(150_000, 5_000_000);
         let mut rng = w.rng("C16", 1);
         let mut cfg = GenCfg::std(&['a', 'b', 'a', '\n']);
         cfg.quant_pct = 65;
@@ -478,7 +478,7 @@ impl Monitor for C13 {
         }
         desc.set("exhaustive_literals", J::obj().with("max_len", J::u(maxlen as u64)).with("alphabet_size", J::u(alpha.len() as u64)).with("literals_total", J::u(idx)).with("literals_this_shard", J::u(mine)).with("exhaustive", J::Bool(true)));
         // (b) random longer literals
-        let n = w.share(30_000, 1_500_000);
+        let n = w.share(300_000, 6_000_000);
         let mut rng = w.rng("C13", 1);
         for _ in 0..n {
             let len = 1 + rng.below(6);
@@ -706,7 +706,7 @@ impl Monitor for C15 {
         }
         desc.set("exhaustive_replacements", J::obj().with("max_len", J::u(maxlen as u64)).with("alphabet", J::s("$ \\ 0 1 2 9 a")).with("strings_total", J::u(idx)).with("strings_this_shard", J::u(mine)).with("patterns_per_string", J::u(pats.len() as u64)).with("exhaustive", J::Bool(true)));
         // random: general patterns with groups, longer replacements
-        let n = w.share(20_000, 2_000_000);
+        let n = w.share(200_000, 6_000_000);
         let mut cfg = GenCfg::std(&['a', 'b', 'c', 'a', 'b']);
         cfg.no_nullable_quant = true;
         cfg.backrefs = false;
